@@ -183,6 +183,50 @@ theorem NodesFresh.append {s s' s'' : St} {a b : List Node}
 theorem NodesFresh.of_eq {s s' : St} {a b : List Node} (h : NodesFresh s s' a) (e : a = b) :
     NodesFresh s s' b := e ▸ h
 
+theorem needState_ok {α : Type} {state : List Name} {a r : α} {s s' : St}
+    (h : needState state a s = .ok (r, s')) : state ≠ [] ∧ a = r ∧ s = s' := by
+  unfold needState at h
+  cases state with
+  | nil => simp only [List.isEmpty_nil, if_true] at h; exact (failM_ok h).elim
+  | cons x xs =>
+    simp only [List.isEmpty_cons, Bool.false_eq_true, if_false] at h
+    obtain ⟨e1, e2⟩ := pure_ok h
+    exact ⟨by simp, e1, e2⟩
+
+theorem forCondIn_ok {i : Name} {lo : VSet} {state : List Name} {c : Name} {s s' : St}
+    (h : forCondIn i lo state s = .ok (c, s')) : lo.contains i = false ∧ genUnique "cond_in" s = .ok (c, s') := by
+  unfold forCondIn at h
+  mbind h with c' s1 h1
+  cases hl : lo.contains i with
+  | true => simp only [hl, if_true] at h; exact (failM_ok h).elim
+  | false =>
+    simp only [hl, Bool.false_eq_true, if_false] at h
+    obtain ⟨_, e1, e2⟩ := needState_ok h
+    subst e1; subst e2
+    exact ⟨rfl, h1⟩
+
+theorem whileCond_ok {L : Locals} {t : Name} {state : List Name} {r : Name × List Node} {s s' : St}
+    (h : whileCond L t state s = .ok (r, s')) : pyVar L t s = .ok (r, s') := by
+  unfold whileCond at h
+  mbind h with r' s1 h1
+  obtain ⟨_, e1, e2⟩ := needState_ok h
+  subst e1; subst e2
+  exact h1
+
+theorem guardE_ok {α : Type} {ok : Bool} {e : Err} {m : M α} {r : α} {s s' : St}
+    (h : guardE ok e m s = .ok (r, s')) : ok = true ∧ m s = .ok (r, s') := by
+  unfold guardE at h
+  cases ok with
+  | true => simp only [if_true] at h; exact ⟨rfl, h⟩
+  | false => simp only [Bool.false_eq_true, if_false] at h; exact (failM_ok h).elim
+
+theorem onlyLast_ok {α : Type} {last : Bool} {m : M α} {r : α} {s s' : St}
+    (h : onlyLast last m s = .ok (r, s')) : last = true ∧ m s = .ok (r, s') := by
+  unfold onlyLast at h
+  cases last with
+  | true => simp only [if_true] at h; exact ⟨rfl, h⟩
+  | false => simp only [Bool.false_eq_true, if_false] at h; exact (failM_ok h).elim
+
 theorem emitConst_fresh {l : Lit} {sug : Option Name} {x : Name} {ns : List Node} {s s' : St}
     (h : emitConst l sug s = .ok ((x, ns), s')) : NodesFresh s s' ns := by
   unfold emitConst at h
@@ -324,6 +368,165 @@ theorem op_single_fresh {s s' : St} {r : Name} (m : Mono s s') (f : FreshL s s' 
     NodesFresh s s' [Node.op dom name ins [r] attrs] :=
   ⟨m, by simpa [allDefsL, Node.allDefs] using f⟩
 
+/-! ### Constant subscripts -/
+
+theorem const1d_fresh {c c' : IntCache} {v : Int} {x : Name} {ns : List Node} {s s' : St}
+    (h : const1d c v s = .ok ((x, ns, c'), s')) : NodesFresh s s' ns := by
+  unfold const1d at h
+  cases hf : cacheFind c v with
+  | some n =>
+    simp only [hf] at h
+    obtain ⟨e1, e2⟩ := pure_ok h
+    cases e1; subst e2
+    exact NodesFresh.nil _
+  | none =>
+    simp only [hf] at h
+    mbind h with p s1 h1
+    obtain ⟨n, ns'⟩ := p
+    try dsimp only at h
+    obtain ⟨e1, e2⟩ := pure_ok h
+    cases e1; subst e2
+    exact emitConst_fresh h1
+
+theorem convSlice_fresh {c c' : IntCache} {lo up st : Option Int} {r : Name × Name × Name} {ns : List Node}
+    {s s' : St} (h : convSlice c lo up st s = .ok ((r, ns, c'), s')) : NodesFresh s s' ns := by
+  unfold convSlice at h
+  mbind h with p s1 h1
+  obtain ⟨sn, ns1, c1⟩ := p
+  try dsimp only at h
+  mbind h with p s2 h2
+  obtain ⟨ln, ns2, c2⟩ := p
+  try dsimp only at h
+  mbind h with p s3 h3
+  obtain ⟨un, ns3, c3⟩ := p
+  try dsimp only at h
+  obtain ⟨e1, e2⟩ := pure_ok h
+  cases e1; subst e2
+  exact (const1d_fresh h1).append ((const1d_fresh h2).append (const1d_fresh h3))
+
+theorem convSlices_fresh : ∀ (els : List SliceEl) {c c' : IntCache}
+    {r : List Name × List Name × List Name × List Name} {ns : List Node} {s s' : St},
+    convSlices c els s = .ok ((r, ns, c'), s') → NodesFresh s s' ns := by
+  intro els
+  induction els with
+  | nil =>
+    intro c c' r ns s s' h
+    unfold convSlices at h
+    obtain ⟨e1, e2⟩ := pure_ok h
+    cases e1; subst e2
+    exact NodesFresh.nil _
+  | cons el rest ih =>
+    intro c c' r ns s s' h
+    obtain ⟨ax, lo, up, st⟩ := el
+    unfold convSlices at h
+    mbind h with p s1 h1
+    obtain ⟨an, ns0, c0⟩ := p
+    try dsimp only at h
+    mbind h with p s2 h2
+    obtain ⟨⟨l, u, sn⟩, ns1, c1⟩ := p
+    try dsimp only at h
+    mbind h with p s3 h3
+    obtain ⟨⟨ls, us, as, ss⟩, ns2, c2⟩ := p
+    try dsimp only at h
+    obtain ⟨e1, e2⟩ := pure_ok h
+    cases e1; subst e2
+    exact (const1d_fresh h1).append ((convSlice_fresh h2).append (ih h3))
+
+theorem pickOrConcat_fresh {cand : Name} {xs : List Name} {x : Name} {ns : List Node} {s s' : St}
+    (h : pickOrConcat cand xs s = .ok ((x, ns), s')) : NodesFresh s s' ns := by
+  have hc : ∀ {s s' : St} {x : Name} {ns : List Node},
+      (do let r ← genUnique cand
+          pure (r, [Node.op "" "Concat" (xs.map some) [r] [("axis", AttrV.const "i:0")]]) : M (Name × List Node)) s
+        = .ok ((x, ns), s') → NodesFresh s s' ns := by
+    intro s s' x ns h
+    mbind h with r s1 h1
+    obtain ⟨e1, e2⟩ := pure_ok h
+    cases e1; subst e2
+    obtain ⟨m1, f1⟩ := genUnique_fresh h1
+    exact op_single_fresh m1 f1 _ _ _ _
+  unfold pickOrConcat at h
+  cases xs with
+  | nil => exact hc h
+  | cons a t =>
+    cases t with
+    | nil =>
+      simp only at h
+      obtain ⟨e1, e2⟩ := pure_ok h
+      cases e1; subst e2
+      exact NodesFresh.nil _
+    | cons b t' => exact hc h
+
+/-- The target name is generated first and defined last: freshness of the whole list is that of the
+sequence up to a permutation of the defined names. -/
+theorem target_last_fresh {s s1 s' : St} {target : Name} {mid : List Node} {last : Node}
+    (ht : Mono s s1 ∧ FreshL s s1 [target]) (hm : NodesFresh s1 s' mid)
+    (hl : allDefsL [last] = [target]) : NodesFresh s s' (mid ++ [last]) := by
+  refine ⟨ht.1.trans hm.1, ?_⟩
+  rw [allDefsL_append, hl]
+  exact FreshL.perm List.perm_append_comm (FreshL.append ht.1 ht.2 hm.1 hm.2)
+
+theorem convSubscript_fresh {var : Name} {tgt : Option Name} {idx : List Idx} {x : Name} {ns : List Node}
+    {s s' : St} (h : convSubscript var tgt idx s = .ok ((x, ns), s')) : NodesFresh s s' ns := by
+  unfold convSubscript at h
+  mbind h with target s0 h0
+  have ht := genUnique_fresh h0
+  try dsimp only at h
+  by_cases hc : (!(slicedOf 0 idx).isEmpty || decide ((scalarsOf 0 idx).length > 1)) = true
+  · rw [if_pos hc] at h
+    mbind h with p s1 h1
+    obtain ⟨⟨starts, ends, axes, steps⟩, ns1, cc⟩ := p
+    try dsimp only at h
+    mbind h with p s2 h2
+    obtain ⟨sv, n1⟩ := p
+    try dsimp only at h
+    mbind h with p s3 h3
+    obtain ⟨ev, n2⟩ := p
+    try dsimp only at h
+    mbind h with p s4 h4
+    obtain ⟨av, n3⟩ := p
+    try dsimp only at h
+    mbind h with p s5 h5
+    obtain ⟨tv, n4⟩ := p
+    try dsimp only at h
+    have hmid := (convSlices_fresh _ h1).append ((pickOrConcat_fresh h2).append ((pickOrConcat_fresh h3).append
+      ((pickOrConcat_fresh h4).append (pickOrConcat_fresh h5))))
+    by_cases hsc : (scalarsOf 0 idx).isEmpty = true
+    · rw [if_pos hsc] at h
+      obtain ⟨e1, e2⟩ := pure_ok h
+      cases e1; subst e2
+      have := target_last_fresh (last := Node.op "" "Slice" [some var, some sv, some ev, some av, some tv] [x] [])
+        ht hmid (by simp [allDefsL, Node.allDefs])
+      simpa [List.append_assoc] using this
+    · rw [if_neg hsc] at h
+      mbind h with sliced s6 h6
+      mbind h with p s7 h7
+      obtain ⟨sq, n5⟩ := p
+      try dsimp only at h
+      obtain ⟨e1, e2⟩ := pure_ok h
+      cases e1; subst e2
+      obtain ⟨m6, f6⟩ := genUnique_fresh h6
+      have hmid2 := hmid.append ((op_single_fresh m6 f6 "" "Slice" [some var, some sv, some ev, some av, some tv] []).append
+        (emitConst_fresh h7))
+      have := target_last_fresh (last := Node.op "" "Squeeze" [some sliced, some sq] [x] [])
+        ht hmid2 (by simp [allDefsL, Node.allDefs])
+      simpa [List.append_assoc] using this
+  · rw [if_neg hc] at h
+    cases hsc : scalarsOf 0 idx with
+    | nil =>
+      simp only [hsc] at h
+      obtain ⟨e1, e2⟩ := pure_ok h
+      cases e1; subst e2
+      exact op_single_fresh ht.1 ht.2 _ _ _ _
+    | cons p rest =>
+      obtain ⟨ax, k⟩ := p
+      simp only [hsc] at h
+      mbind h with q s1 h1
+      obtain ⟨iv, n1⟩ := q
+      try dsimp only at h
+      obtain ⟨e1, e2⟩ := pure_ok h
+      cases e1; subst e2
+      exact target_last_fresh ht (emitConst_fresh h1) (by simp [allDefsL, Node.allDefs])
+
 mutual
 theorem convExpr_fresh (L : Locals) : ∀ (e : Expr) (tgt : Option Name) {x : Name} {ns : List Node} {s s' : St},
     convExpr L e tgt s = .ok ((x, ns), s') → NodesFresh s s' ns
@@ -422,6 +625,17 @@ theorem convExpr_fresh (L : Locals) : ∀ (e : Expr) (tgt : Option Name) {x : Na
         obtain ⟨m4, f4⟩ := genUnique_fresh h4
         exact (convExpr_fresh L a none h1).append ((convExpr_fresh L b none h2).append
           ((castInputs_fresh h3).append (op_single_fresh m4 f4 _ _ _ _)))
+  | .subscript base idx, tgt, x, ns, s, s', h => by
+    unfold convExpr at h
+    mbind h with p s1 h1
+    obtain ⟨v, ns1⟩ := p
+    try dsimp only at h
+    mbind h with p s2 h2
+    obtain ⟨r, ns2⟩ := p
+    try dsimp only at h
+    obtain ⟨e1, e2⟩ := pure_ok h
+    cases e1; subst e2
+    exact (convExpr_fresh L base none h1).append (convSubscript_fresh h2)
   | .other us, tgt, x, ns, s, s', h => by
     unfold convExpr at h
     exact (failM_ok h).elim
@@ -630,8 +844,8 @@ theorem convPar_fresh (xs : List Name) (es : List Expr) (L : Locals) {L' : Local
   cases e1; subst e2
   exact convParExprs_fresh L xs es h1
 
-theorem loopEnter_fresh {L : Locals} {v : Name} {state : List Name} {L1 : Locals} {iv : Name}
-    {ps : List Name} {s s' : St} (h : loopEnter L v state s = .ok ((L1, iv, ps), s')) :
+theorem loopEnter_fresh {L : Locals} {v : Name} {bindIt : Bool} {state : List Name} {L1 : Locals} {iv : Name}
+    {ps : List Name} {s s' : St} (h : loopEnter L v bindIt state s = .ok ((L1, iv, ps), s')) :
     Mono s s' ∧ FreshL s s' (iv :: ps) := by
   unfold loopEnter at h
   mbind h with iv' s1 h1
@@ -648,6 +862,36 @@ theorem loopEnter_fresh {L : Locals} {v : Name} {state : List Name} {L1 : Locals
 theorem perm_of_count {l1 l2 : List Name} (h : ∀ a, l1.count a = l2.count a) : l1.Perm l2 :=
   List.perm_iff_count.mpr h
 
+theorem condNodes_fresh {whileVar brkCond : Option Name} {oc co : Name} {cns : List Node} {s s' : St}
+    (h : condNodes whileVar brkCond oc s = .ok ((co, cns), s')) : NodesFresh s s' cns := by
+  have hone : ∀ {s s' : St} {co : Name} {cns : List Node},
+      (do let co ← genUnique "cond_out"
+          pure (co, [condNode brkCond oc co]) : M (Name × List Node)) s = .ok ((co, cns), s') →
+      NodesFresh s s' cns := by
+    intro s s' co cns h
+    mbind h with c s1 h1
+    obtain ⟨e1, e2⟩ := pure_ok h
+    cases e1; subst e2
+    obtain ⟨m1, f1⟩ := genUnique_fresh h1
+    refine ⟨m1, ?_⟩
+    cases brkCond <;> simpa [condNode, allDefsL, Node.allDefs] using f1
+  unfold condNodes at h
+  cases whileVar with
+  | none => exact hone h
+  | some w =>
+    cases hb : brkCond with
+    | none => subst hb; exact hone h
+    | some b =>
+      subst hb
+      simp only at h
+      mbind h with nb s1 h1
+      mbind h with c s2 h2
+      obtain ⟨e1, e2⟩ := pure_ok h
+      cases e1; subst e2
+      obtain ⟨m1, f1⟩ := genUnique_fresh h1
+      obtain ⟨m2, f2⟩ := genUnique_fresh h2
+      exact (op_single_fresh m1 f1 "" "Not" [some b] []).append (op_single_fresh m2 f2 "" "And" [some oc, some nb] [])
+
 theorem loopFinish_fresh {L L2 : Locals} {state : List Name} {bound cond : Option Name}
     {condIn iv : Name} {ps : List Name} {whileVar : Option Name} {bn : List Node}
     {brkCond : Option Name} {L' : Locals} {nl : List Node} {s s' : St}
@@ -659,7 +903,9 @@ theorem loopFinish_fresh {L L2 : Locals} {state : List Name} {bound cond : Optio
   | none => simp only [hc] at h; exact (failM_ok h).elim
   | some oc =>
     simp only [hc] at h
-    mbind h with condOut s1 h1
+    mbind h with p s1 h1
+    obtain ⟨condOut, cns⟩ := p
+    try dsimp only at h
     mbind h with p s2 h2
     obtain ⟨os, ns3⟩ := p
     try dsimp only at h
@@ -669,18 +915,18 @@ theorem loopFinish_fresh {L L2 : Locals} {state : List Name} {bound cond : Optio
     mbind h with outs s4 h4
     obtain ⟨e1, e2⟩ := pure_ok h
     cases e1; subst e2
-    obtain ⟨m1, f1⟩ := genUnique_fresh h1
+    obtain ⟨m1, f1⟩ := condNodes_fresh h1
     obtain ⟨m2, f2⟩ := loopOutputs_fresh _ _ _ _ h2
     obtain ⟨m3, f3⟩ := loopInits_fresh _ _ h3
     obtain ⟨m4, f4, _⟩ := genUniques_fresh _ h4
-    refine ⟨((m1.trans m2).trans m3).trans m4, [condOut] ++ (allDefsL ns3 ++ (allDefsL ns4 ++ outs)), ?_, ?_⟩
+    refine ⟨((m1.trans m2).trans m3).trans m4, allDefsL cns ++ (allDefsL ns3 ++ (allDefsL ns4 ++ outs)), ?_, ?_⟩
     · exact FreshL.append m1 f1 (m2.trans (m3.trans m4))
         (FreshL.append m2 f2 (m3.trans m4) (FreshL.append m3 f3 m4 f4))
     · apply perm_of_count
       intro a
-      cases brkCond <;>
-        simp only [condNode, allDefsL_append, allDefsL, Node.allDefs, List.count_append, List.count_cons,
-          List.count_nil, List.append_nil] <;> omega
+      simp only [allDefsL_append, allDefsL, Node.allDefs, List.count_append, List.count_cons,
+        List.count_nil, List.append_nil]
+      omega
 
 end OV.C01
 
@@ -801,6 +1047,7 @@ theorem convStmt_fresh (L : Locals) : ∀ (st : Stmt) (lo : VSet) {L' : Locals} 
         obtain ⟨ob, ns0⟩ := p
         try dsimp only at h
         mbind h with condIn s2 h2
+        have h2 := (forCondIn_ok h2).2
         mbind h with p s3 h3
         obtain ⟨L1, iv, ps⟩ := p
         try dsimp only at h
@@ -838,6 +1085,7 @@ theorem convStmt_fresh (L : Locals) : ∀ (st : Stmt) (lo : VSet) {L' : Locals} 
         simp only [hs] at h
         mbind h with condIn s2 h2
         mbind h with p s1 h1
+        have h1 := whileCond_ok h1
         obtain ⟨oc, ns0⟩ := p
         try dsimp only at h
         mbind h with p s3 h3
@@ -1039,6 +1287,7 @@ theorem convTop_fresh {inputs : List Name} {rc : Option Nat} :
     · obtain ⟨es, b, rfl⟩ := hb
       unfold convTop at h
       mbind h with p s1 h1
+      have h1 := (onlyLast_ok h1).2
       obtain ⟨outs1, ns1⟩ := p
       try dsimp only at h
       mbind h with p s2 h2
